@@ -1,5 +1,6 @@
 /-
-  Core engine (stage S2): `fetchStep_ok` (hot, shallow, deep-verified, re-executed).  Core Lean only.
+  CoreAcc engine (adapted copy of CoreFetch.lean): `fetchStep_ok` (hot, shallow, deep-verified
+  with the recomputed `accumulated_inputs`, re-executed).  Core Lean only.
 -/
 import SalsaVerif.Proofs.CoreAccExec
 
